@@ -287,6 +287,11 @@ class load(DataStreamProcessor):
                 it = self.limiter(it)
             # a (descriptor, resources) pair may hold plain lists of rows
             yield iter(it)
+        if isinstance(self.load_source, tuple):
+            # read the resources iterator to its end, so that the flow producing it completes
+            # (its dumpers and checkpoints commit, and a failure at its very end is not lost)
+            for _ in self.iterators:
+                pass
 
     @staticmethod
     def rename_duplicate_headers(duplicate_headers, case_sensitive=True, deduplicate_format=' (%s)'):
